@@ -623,6 +623,10 @@ func execCase(ops []string) (out []string) {
 				}
 				return got + " ok"
 			})
+		case "proc":
+			guard(line, func() string {
+				return runProc(t[1], t[2], int(atoi(t[3])), int(atoi(t[4])), int(atoi(t[5])))
+			})
 		case "stall":
 			// the request stream stalls for <ms> between the two Write calls of the next message
 			ms, _ := strconv.Atoi(t[1])
@@ -686,6 +690,11 @@ func Run(args []string) int {
 	for i := 0; i < f.N; i++ {
 		g := r.Fork()
 		switch {
+		case i == 7 || (thorough && i%500 == 7):
+			// the real UDFProcess closed cleanly while the consumer of Out() stalls for longer than a second: the process
+			// exits with its echo unread in the (OS) pipe
+			emit(o, fmt.Sprintf("p%d", i), execCase([]string{fmt.Sprintf("proc %s %s %d %d %d", genPattern(g), genPattern(g),
+				g.Range(50, 600), g.Intn(12), 1300+g.Intn(700))}))
 		case i%25 == 5:
 			emit(o, fmt.Sprintf("t%d", i), execCase(genTaskCase(g, thorough, i)))
 		case i%3 == 0:
